@@ -33,6 +33,8 @@ macro_rules! map_section {
     ($($n:ident = $k:expr),*) => { verus!{ $(
         pub struct $n(pub MapS);
         impl Sect for $n { open spec fn kind() -> int { $k } uninterp spec fn id(&self) -> int; }
+        /// Deref to the map: whether the map has entries is nothing the message's section list may depend on (a section that is SET is a section of the message, empty or not)
+        impl $n { pub fn is_empty(&self) -> (r: bool) { self.0.is_empty() } pub fn len(&self) -> (r: usize) { self.0.len() } }
     )* } }
 }
 map_section!(DeliveryAnnotations = 1, MessageAnnotations = 2, ApplicationProperties = 4, Footer = 6);
